@@ -9,6 +9,10 @@ Fixpoint bad_from {A} (chk : A -> bool) (i : Z) (l : list A) : list Z :=
   | [] => []
   | x :: r => if chk x then bad_from chk (i + 1) r else i :: bad_from chk (i + 1) r
   end.
+(* forces the element type of a case list to be the checker's domain, so that literals such as []
+   inside a case are typed even when no case pins them down *)
+Definition cases_for {A} (chk : A -> bool) (l : list A) : list A := l.
+
 Definition bad_indices {A} (chk : A -> bool) (l : list A) : list Z := bad_from chk 0 l.
 
 Definition list_eqb {A} (eqb : A -> A -> bool) : list A -> list A -> bool :=
